@@ -115,14 +115,51 @@ def model_query(frontend, framer, single, units, ignore_missing, broadcast, chun
     return q
 
 
+RECV_SIZE = 1024      # what the synchronous stream handlers ask of their socket per read
+
+
+def _as_reads(c):
+    """the synchronous stream handlers read with recv(1024): a chunk longer than that reaches them in several reads.  Returns
+    the configuration the model is asked about (chunks cut into reads) and, per original chunk, how many reads it became."""
+    if c['frontend'] not in ('syncTcp', 'syncSerial'):
+        return c, None
+    sched = c.get('schedule')
+    items = [ch for _, ch in sched] if sched is not None else c['chunks']
+    if not any(ch is not None and len(ch) > RECV_SIZE for ch in items):
+        return c, None
+    groups, cut = [], []
+    for k, ch in enumerate(items):
+        pieces = [ch] if ch is None or len(ch) <= RECV_SIZE else [ch[i:i + RECV_SIZE] for i in range(0, len(ch), RECV_SIZE)]
+        groups.append(len(pieces))
+        cut += [(sched[k][0], p) for p in pieces] if sched is not None else pieces
+    c2 = dict(c)
+    c2['schedule' if sched is not None else 'chunks'] = cut
+    return c2, groups
+
+
+def _regroup(a, groups):
+    calls, i = [], 0
+    for n in groups:
+        part = a['calls'][i:i + n]
+        i += n
+        calls.append({'out': [f for p in part for f in p['out']], 'escaped': next((p['escaped'] for p in part if p['escaped']), None),
+                      'running': part[-1]['running']})
+    a = dict(a)
+    a['calls'] = calls
+    return a
+
+
+def ask_model(ctx, cfgs):
+    """the model's answers for these configurations, one call entry per chunk of the configuration"""
+    asked = [_as_reads(c) for c in cfgs]
+    ans = ctx.driver.query([model_query(**c2) for c2, _ in asked])
+    return [a if groups is None else _regroup(a, groups) for (_, groups), a in zip(asked, ans)]
+
+
 def run_both(ctx, cfgs):
     """cfgs: list of dict(frontend, framer, single, units, ignore_missing, broadcast, chunks).
     Returns list of (real (outs, escaped, dumps), model answer)"""
-    ans = ctx.driver.query([model_query(**c) for c in cfgs])
-    res = []
-    for c, a in zip(cfgs, ans):
-        res.append((run_real(c), a))
-    return res
+    return [(run_real(c), a) for c, a in zip(cfgs, ask_model(ctx, cfgs))]
 
 
 def run_real(c):
